@@ -518,43 +518,54 @@ func directedJpCases() (paths [][]Frag, datas []any) {
 	return
 }
 
-// defuseRootOperands returns a copy of the path in which every filter operand anchored at the
-// document root ($...) that denotes exactly one scalar in doc is replaced by that scalar.
-// changed: at least one operand was replaced; ok: every root-anchored operand could be replaced.
+// defuseRootOperands returns a copy of the path in which the filter operands anchored at the
+// document root ($...) are replaced by the scalars they denote in doc. An operand that denotes
+// exactly one scalar becomes that scalar; when operands denote several scalars the whole filter
+// equation becomes the disjunction of its instances over every combination (the evaluator's rule
+// for multi-valued operands: the filter matches if any combination does); an operand that denotes
+// nothing becomes Nothing. length($..) / count($..) become the integer they denote.
+// changed: at least one operand was replaced; ok: every root-anchored operand could be replaced
+// (scalars only, at most 24 combinations per filter).
 func defuseRootOperands(path []Frag, doc any) (out []Frag, changed, ok bool) {
 	ok = true
-	var eq func(e *Eqn) *Eqn
-	var frs func(fs []Frag) []Frag
-	eq = func(e *Eqn) *Eqn {
-		if e == nil {
-			return nil
+	isRootPath := func(e *Eqn) bool { return e != nil && e.Kind == "p" && len(e.Path) > 0 && e.Path[0].Kind == "R" }
+	scalars := func(rs []any) ([]any, bool) {
+		for _, v := range rs {
+			switch v.(type) {
+			case nil, bool, int64, float64, string:
+			default:
+				return nil, false
+			}
 		}
-		c := *e
+		return rs, true
+	}
+	var frs func(fs []Frag) []Frag
+	// collect the root operands of one equation (in order), with the values each denotes
+	type operand struct {
+		node *Eqn
+		vals []any
+	}
+	var collect func(e *Eqn, acc *[]operand)
+	collect = func(e *Eqn, acc *[]operand) {
+		if e == nil {
+			return
+		}
 		switch e.Kind {
 		case "p":
-			if len(e.Path) > 0 && e.Path[0].Kind == "R" {
-				rs := BuildExpr(e.Path).Get(doc)
-				if len(rs) == 1 {
-					switch rs[0].(type) {
-					case nil, bool, int64, float64, string:
-						changed = true
-						return &Eqn{Kind: "v", Const: rs[0]}
-					}
+			if isRootPath(e) {
+				vs, good := scalars(BuildExpr(e.Path).Get(doc))
+				if !good {
+					ok = false
 				}
-				ok = false
-				return &c
+				*acc = append(*acc, operand{e, vs})
 			}
-			c.Path = frs(e.Path)
 		case "un":
-			// length / count of a root-anchored path: replace the call by the integer it denotes
-			if (e.Op == "length" || e.Op == "count") && e.A != nil && e.A.Kind == "p" && len(e.A.Path) > 0 && e.A.Path[0].Kind == "R" {
+			if (e.Op == "length" || e.Op == "count") && isRootPath(e.A) {
 				rs := BuildExpr(e.A.Path).Get(doc)
+				n := -1
 				if e.Op == "count" {
-					changed = true
-					return &Eqn{Kind: "v", Const: int64(len(rs))}
-				}
-				if len(rs) == 1 {
-					n := -1
+					n = len(rs)
+				} else if len(rs) == 1 {
 					switch t := rs[0].(type) {
 					case string:
 						n = len(t)
@@ -563,26 +574,93 @@ func defuseRootOperands(path []Frag, doc any) (out []Frag, changed, ok bool) {
 					case map[string]any:
 						n = len(t)
 					}
-					if n >= 0 {
-						changed = true
-						return &Eqn{Kind: "v", Const: int64(n)}
-					}
 				}
-				ok = false
-				return &c
+				if n < 0 {
+					ok = false
+				}
+				*acc = append(*acc, operand{e, []any{int64(n)}})
+				return
 			}
-			c.A, c.B = eq(e.A), eq(e.B)
+			collect(e.A, acc)
+			collect(e.B, acc)
 		default:
-			c.A, c.B = eq(e.A), eq(e.B)
+			collect(e.A, acc)
+			collect(e.B, acc)
 		}
+	}
+	// a copy of e in which the collected operands are replaced by pick[node]
+	var subst func(e *Eqn, pick map[*Eqn]*Eqn) *Eqn
+	subst = func(e *Eqn, pick map[*Eqn]*Eqn) *Eqn {
+		if e == nil {
+			return nil
+		}
+		if r, found := pick[e]; found {
+			return r
+		}
+		c := *e
+		if e.Kind == "p" {
+			c.Path = frs(e.Path)
+			return &c
+		}
+		c.A, c.B = subst(e.A, pick), subst(e.B, pick)
 		return &c
+	}
+	defuseEq := func(e *Eqn) *Eqn {
+		var ops []operand
+		collect(e, &ops)
+		if len(ops) == 0 || !ok {
+			return subst(e, nil)
+		}
+		changed = true
+		combos := 1
+		for _, o := range ops {
+			if len(o.vals) > 1 {
+				combos *= len(o.vals)
+			}
+		}
+		if combos > 24 {
+			ok = false
+			return subst(e, nil)
+		}
+		var result *Eqn
+		idx := make([]int, len(ops))
+		for {
+			pick := map[*Eqn]*Eqn{}
+			for k, o := range ops {
+				if len(o.vals) == 0 {
+					pick[o.node] = &Eqn{Kind: "N"}
+				} else {
+					pick[o.node] = &Eqn{Kind: "v", Const: o.vals[idx[k]]}
+				}
+			}
+			inst := subst(e, pick)
+			if result == nil {
+				result = inst
+			} else {
+				result = &Eqn{Kind: "bin", Op: "or", A: result, B: inst}
+			}
+			k := 0
+			for ; k < len(ops); k++ {
+				if len(ops[k].vals) > 1 {
+					idx[k]++
+					if idx[k] < len(ops[k].vals) {
+						break
+					}
+					idx[k] = 0
+				}
+			}
+			if k == len(ops) {
+				break
+			}
+		}
+		return result
 	}
 	frs = func(fs []Frag) []Frag {
 		o := make([]Frag, len(fs))
 		for i, f := range fs {
 			o[i] = f
 			if f.Kind == "f" {
-				o[i].Eq = eq(f.Eq)
+				o[i].Eq = defuseEq(f.Eq)
 			}
 		}
 		return o
